@@ -637,7 +637,15 @@ impl State {
             // it was read from: a later `require` has to read them again
             self.code.truncate(self.ctx.cs_len);
             self.debug_map.truncate(self.ctx.cs_len);
-            self.sources.truncate(self.ctx.so_len);
+            // ... but not of a file that is still being read (an `include` between two
+            // fields of an enum: every field closes a block that was opened before it)
+            let mut keep = self.ctx.so_len;
+            for (i, src) in self.sources.iter().enumerate().skip(keep) {
+                if self.input.iter().any(|lex| Xstr::ptr_eq(lex.last_substr().parent(), &src.1)) {
+                    keep = i + 1;
+                }
+            }
+            self.sources.truncate(keep);
             // remove non-constant words
             let mut i = self.ctx.di_len;
             while i < self.dict.len() {
